@@ -3,8 +3,7 @@
    All theorems quantify over every configuration, peer, byte stream and (Section variables) every
    behaviour of socket.inet_pton and of urlsplit's netloc validation. *)
 From Coq Require Import List NArith ZArith Bool.
-From GV Require Import Base.Enc Base.Dec Gen.GenEnv Model.EnvStr Model.Environ Spec.EnvSpec
-                       Proof.EnvStrProofs Proof.EnvC08Proofs.
+From GV Require Import Base.Enc Base.Dec Gen.GenEnv Model.EnvStr Model.Environ Spec.EnvSpec Proof.EnvStrProofs Proof.EnvC08Proofs.
 Import ListNotations.
 Local Open Scope N_scope.
 
